@@ -704,11 +704,11 @@ Lemma gateway_no_double_slash hs gw p : gateway_base hs gw <> p ++ [SLASH].
 Proof. unfold gateway_base. apply rstrip_no_trailing. Qed.
 
 (* ---------- method, body, headers, timeout ---------- *)
-Lemma request_shape {T} a hs gw job gk (t : T) r :
-  request_of a hs gw job gk t = Ok r ->
+Lemma request_shape {T} a hs gw job gk expo (t : T) r :
+  request_of a hs gw job gk expo t = Ok r ->
   url_of (gateway_base hs gw) job gk = Ok (rq_url r)
   /\ rq_method r = match a with Push => s2l "PUT" | PushAdd => s2l "POST" | Delete => s2l "DELETE" end
-  /\ rq_body r = match a with Delete => BodyEmpty | _ => BodyExposition end
+  /\ rq_body r = match a with Delete => [] | _ => expo end
   /\ rq_headers r = [(s2l "Content-Type", s2l "text/plain; version=0.0.4; charset=utf-8")]
   /\ rq_timeout r = t.
 Proof.
@@ -716,11 +716,54 @@ Proof.
   cbn [rq_url rq_method rq_body rq_headers rq_timeout]. split; [exact Hu|]. destruct a; repeat split.
 Qed.
 
-Lemma request_total {T} a hs gw job gk (t : T) :
-  encodable job -> Forall (fun kv => encodable (snd kv)) gk -> exists r, request_of a hs gw job gk t = Ok r.
+Lemma request_total {T} a hs gw job gk expo (t : T) :
+  encodable job -> Forall (fun kv => encodable (snd kv)) gk -> exists r, request_of a hs gw job gk expo t = Ok r.
 Proof.
   intros Hj Hg. unfold request_of, request_with, escape_gk.
   destruct (url_total quote_bytes (gateway_base hs gw) job gk Hj Hg) as [u Hu]. rewrite Hu. cbn. eauto.
+Qed.
+
+(* ---------- the handler is given exactly one request, whatever the exposition (the empty one included) ---------- *)
+Lemma calls_exactly_one {T} a hs gw job gk expo (t : T) l :
+  calls_of a hs gw job gk expo t = Ok l <-> exists r, request_of a hs gw job gk expo t = Ok r /\ l = [r].
+Proof.
+  unfold calls_of, calls_with, request_of. split.
+  - intro H. apply bind_ok in H as (r & Hr & H). apply Ok_inj in H. exists r. split; [exact Hr|symmetry; exact H].
+  - intros (r & Hr & ->). rewrite Hr. reflexivity.
+Qed.
+
+Lemma calls_total {T} a hs gw job gk expo (t : T) :
+  encodable job -> Forall (fun kv => encodable (snd kv)) gk ->
+  exists r, calls_of a hs gw job gk expo t = Ok [r]
+    /\ url_of (gateway_base hs gw) job gk = Ok (rq_url r)
+    /\ rq_method r = match a with Push => s2l "PUT" | PushAdd => s2l "POST" | Delete => s2l "DELETE" end
+    /\ rq_body r = match a with Delete => [] | _ => expo end
+    /\ rq_headers r = [(s2l "Content-Type", s2l "text/plain; version=0.0.4; charset=utf-8")]
+    /\ rq_timeout r = t.
+Proof.
+  intros Hj Hg. destruct (request_total a hs gw job gk expo t Hj Hg) as [r Hr]. exists r. split.
+  - apply calls_exactly_one. exists r. split; [exact Hr|reflexivity].
+  - exact (request_shape a hs gw job gk expo t r Hr).
+Qed.
+
+(* an empty exposition changes nothing but the body: same URL, method, headers and timeout as for any other one *)
+Lemma calls_body_only {T} a hs gw job gk e1 e2 (t : T) r1 :
+  calls_of a hs gw job gk e1 t = Ok [r1] ->
+  exists r2, calls_of a hs gw job gk e2 t = Ok [r2]
+    /\ rq_url r2 = rq_url r1 /\ rq_method r2 = rq_method r1 /\ rq_headers r2 = rq_headers r1
+    /\ rq_timeout r2 = rq_timeout r1.
+Proof.
+  unfold calls_of, calls_with, request_with. intro H. apply bind_ok in H as (r & Hr & H).
+  apply bind_ok in Hr as (u & Hu & Hr). apply Ok_inj in Hr. apply Ok_inj in H. injection H as H. subst r1 r.
+  rewrite Hu. cbn. eexists. split; [reflexivity|]. cbn. repeat split.
+Qed.
+
+(* the calls fail with ValueError only (an un-encodable job or value), and then no request at all is made *)
+Lemma calls_only_VE {T} a hs gw job gk expo (t : T) : only_VE (calls_of a hs gw job gk expo t).
+Proof.
+  unfold calls_of, calls_with, request_with.
+  pose proof (url_only_VE quote_bytes (gateway_base hs gw) job gk) as H. fold escape_gk in H.
+  destruct (url_with escape_gk (gateway_base hs gw) job gk) as [u|e]; cbn in *; [exact I|exact H].
 Qed.
 
 Lemma sort_items_sorted_lt gk : Sorted (fun a b => str_ltb (fst b) (fst a) = false) (sort_items gk).
